@@ -240,7 +240,15 @@ private:
     }
   }
 
-  bool IsOverflowAttributes() const { return (hash_map_.size() + 1 >= attributes_limit_); }
+  // True when a new key no longer fits: one slot is kept free for the overflow entry as long as
+  // that entry does not exist.  Once it exists it occupies its slot itself (it may also arrive as
+  // an ordinary key, when the temporal merge copies the table of an interval), so it must not be
+  // counted a second time - otherwise one more key than necessary is folded into it.
+  bool IsOverflowAttributes() const
+  {
+    const bool has_overflow_entry = hash_map_.find(kOverflowAttributes) != hash_map_.end();
+    return hash_map_.size() + (has_overflow_entry ? 0 : 1) >= attributes_limit_;
+  }
 };
 
 using AttributesHashMap = AttributesHashMapWithCustomHash<>;
